@@ -251,7 +251,9 @@ func ComputeView(c *cache.RepoCache) (v View, staged bool) {
 		if err != nil {
 			return "error: " + err.Error()
 		}
-		return string(u.Id())
+		// not only which identity, also its current state: the instance handed out must be the one the
+		// last merge produced
+		return fmt.Sprintf("%s name=%q login=%q email=%q", u.Id(), u.Name(), u.Login(), u.Email())
 	})
 	return v, staged
 }
